@@ -121,6 +121,16 @@ def run(ctx):
         jobs += [("nnf", sh), ("aig", sh), ("prenex", sh), ("shannon", sh), ("selfsub", sh)]
     for sh in bshapes[:40]:
         jobs.append(("prenex", sh))
+    # wide n-ary nodes (every arity up to 12, operands of both polarities), alone and under a quantifier
+    vs = [S("v%d" % i) for i in range(12)]
+    for k in range(3, 13):
+        ops_ = tuple(v if i % 3 else ("Not", v) for i, v in enumerate(vs[:k]))
+        for conn in ("And", "Or"):
+            wsh = Shape((conn,) + ops_)
+            jobs += [("nnf", wsh), ("aig", wsh)]
+            if k in (7, 11):
+                qsh = Shape(("forall", [("v0", BOOL)], (conn,) + ops_))
+                jobs += [("nnf", qsh), ("aig", qsh), ("prenex", qsh), ("shannon", qsh), ("selfsub", qsh)]
     outs = parallel_map(_job, jobs)
     pj = []
     for sh in bshapes:
